@@ -225,7 +225,9 @@ def increasing(rng, frame, k):
 # generator: properties
 WORDS = ['M31', 'core', 'Src', 'A', 'b2', 'NGC 1275', 'x=1', 'a,b', '(bkg)', 'No.7', 'r<5', '50%', 'a/b', 'Halpha+[NII]',
          'q?', 'jet #2', 'one; two', 'circle(1,2,3)', 'fk5', 'global', 'include=0', 'select=0', 'café', 'α Cen',
-         'it is', 'A&A', 'x_y', '-3.5 sigma', '1e3 counts', 'v1.0', '12 arcsec']
+         'it is', 'A&A', 'x_y', '-3.5 sigma', '1e3 counts', 'v1.0', '12 arcsec',
+         # blanks around '=' inside a delimited value; characters str.splitlines() would split at but DS9 lines do not end at
+         'S/N = 5.2', 'a =b', 'a= b', 'page\x0cbreak', 'v\x0bt', 'nel\x85x', 'ls\u2028x', 'ps\u2029x', 'rs\x1ex', 'tab\tx']
 TAGW = ['Group 1', 'bkg', 'src_A', 'cluster-3', 'v1.0', 'set', 'X', 'Ring 2']
 COLORS = ['red', 'green', 'Blue', 'cyan', 'magenta', 'yellow', 'white', '#0ff', '#FF00AA', '#12ab9f']
 
